@@ -1,7 +1,352 @@
-/- Helper lemmas for LC/Props/C06.lean. TO BE PROVED (no sorry may remain). -/
+/- Helper lemmas for LC/Props/C06.lean. -/
 import LC.Spec.TokSpec
 import LC.Model.V2Env
 import LC.Proofs.Tok
 namespace LC.V2Tok
 open LC.Utf8
+
+theorem marker_dropped' (E : Env) (w : Word) (n : Bool) (h : header E w = true) :
+    cleanupToken E 0 w n = [] := by
+  unfold cleanupToken
+  simp [h]
+
+theorem header_concat (E : Env) (p : Word) (e : Rune) :
+    header E (p ++ [e]) =
+      if e = 46 ∨ e = 58 ∨ e = 41 then
+        (if E.listMarker (p.map E.toLower) ∧ e ≠ 41 then true
+         else p.all (fun r => E.isDigit r || r = 46))
+      else false := by
+  unfold header
+  simp only [List.getLast?_append, List.getLast?_singleton, Option.some_or, List.dropLast_concat]
+
+theorem header_iff' (E : Env) (w : Word) :
+    header E w = true ↔
+      ∃ p e, w = p ++ [e] ∧ (e = 46 ∨ e = 58 ∨ e = 41) ∧
+        ((E.listMarker (p.map E.toLower) = true ∧ e ≠ 41) ∨ p.all (fun r => E.isDigit r || r = 46) = true) := by
+  rcases List.eq_nil_or_concat w with hw | ⟨p, e, hw⟩
+  · subst hw
+    constructor
+    · intro h; simp [header] at h
+    · rintro ⟨p, e, h, _⟩; simp at h
+  · rw [List.concat_eq_append] at hw
+    subst hw
+    rw [header_concat]
+    constructor
+    · intro h
+      refine ⟨p, e, rfl, ?_⟩
+      by_cases hc : e = 46 ∨ e = 58 ∨ e = 41
+      · refine ⟨hc, ?_⟩
+        rw [if_pos hc] at h
+        by_cases hm : E.listMarker (p.map E.toLower) = true ∧ e ≠ 41
+        · exact Or.inl hm
+        · rw [if_neg hm] at h
+          exact Or.inr h
+      · rw [if_neg hc] at h; cases h
+    · rintro ⟨p', e', hpe, hc, hor⟩
+      obtain ⟨hp, he⟩ := List.append_inj' hpe rfl
+      simp only [List.cons.injEq, and_true] at he
+      subst hp he
+      rw [if_pos hc]
+      by_cases hm : E.listMarker (p.map E.toLower) = true ∧ e ≠ 41
+      · rw [if_pos hm]
+      · rw [if_neg hm]
+        rcases hor with h | h
+        · exact absurd h hm
+        · exact h
+
+
+/-! ### marker examples over the Go tables -/
+
+open LC.V2Env LC.Gen.Unicode in
+def digitChecks06 : List (Nat × Nat × Bool) := [(48, 57, true)]
+
+open LC.V2Env LC.Gen.Unicode in
+theorem digitChecks06_ok : uniformAll digitRanges digitChecks06 = true := by decide +kernel
+
+open LC.V2Env LC.Gen.Unicode in
+theorem isDigit_true (r : Nat) (h : 48 ≤ r ∧ r ≤ 57) : LC.V2Env.isDigit r = true :=
+  uniformAll_sound _ _ digitChecks06_ok 48 57 true (by simp [digitChecks06]) r h.1 h.2
+
+open LC.V2Env in
+theorem marker_examples' (u : Word → Word) :
+    header (goEnv u) (lit "1.") = true ∧ header (goEnv u) (lit "iv.") = true ∧
+    header (goEnv u) (lit "a.") = true ∧ header (goEnv u) (lit "3.1.") = true ∧
+    header (goEnv u) (lit "b:") = true ∧ header (goEnv u) (lit "12)") = true ∧
+    header (goEnv u) (lit "a)") = false := by
+  have e1 : lit "1." = [49] ++ [46] := by decide
+  have e2 : lit "iv." = [105, 118] ++ [46] := by decide
+  have e3 : lit "a." = [97] ++ [46] := by decide
+  have e4 : lit "3.1." = [51, 46, 49] ++ [46] := by decide
+  have e5 : lit "b:" = [98] ++ [58] := by decide
+  have e6 : lit "12)" = [49, 50] ++ [41] := by decide
+  have e7 : lit "a)" = [97] ++ [41] := by decide
+  have d49 := isDigit_true 49 (by omega)
+  have d50 := isDigit_true 50 (by omega)
+  have d51 := isDigit_true 51 (by omega)
+  have d97 := isDigit_false 97 (by omega)
+  have l97 := toLower_id 97 (by omega)
+  have l98 := toLower_id 98 (by omega)
+  have l105 := toLower_id 105 (by omega)
+  have l118 := toLower_id 118 (by omega)
+  have m1 : LC.V2Env.listMarker [97] = true := by decide
+  have m2 : LC.V2Env.listMarker [98] = true := by decide
+  have m3 : LC.V2Env.listMarker [105, 118] = true := by decide
+  rw [e1, e2, e3, e4, e5, e6, e7]
+  simp only [header_concat]
+  simp [goEnv, d49, d50, d51, d97, l97, l98, l105, l118, m1, m2, m3]
+
+/-! ### the scheme rewrite -/
+
+theorem replaceHttps_match (rest : List Rune) :
+    replaceHttps (104 :: 116 :: 116 :: 112 :: 115 :: 58 :: 47 :: 47 :: rest) =
+      104 :: 116 :: 116 :: 112 :: 58 :: 47 :: 47 :: replaceHttps rest := by
+  rw [replaceHttps]
+
+theorem replaceHttps_ne (c : Rune) (l : List Rune) (h : c ≠ 104) :
+    replaceHttps (c :: l) = c :: replaceHttps l := by
+  rw [replaceHttps]
+  intro rest
+  simp [h]
+
+theorem replaceHttps_head (l : List Rune) : (replaceHttps l).head? = l.head? := by
+  fun_cases replaceHttps l <;> simp
+
+/-- the output starts with the rune the input starts with -/
+theorem replaceHttps_cons_inv (c : Rune) (l X : List Rune) (h : c ≠ 104)
+    (e : replaceHttps l = c :: X) : ∃ l', l = c :: l' ∧ X = replaceHttps l' := by
+  have hh := replaceHttps_head l
+  rw [e] at hh
+  cases l with
+  | nil => simp at hh
+  | cons a t =>
+    simp only [List.head?_cons, Option.some.injEq] at hh
+    subst hh
+    rw [replaceHttps_ne c t h] at e
+    simp only [List.cons.injEq, true_and] at e
+    exact ⟨t, rfl, e.symm⟩
+
+theorem replaceHttps_nomatch (c : Rune) (l : List Rune)
+    (h : ∀ rest, c :: l ≠ 104 :: 116 :: 116 :: 112 :: 115 :: 58 :: 47 :: 47 :: rest) :
+    replaceHttps (c :: l) = c :: replaceHttps l := by
+  rw [replaceHttps]
+  intro rest e1 e2
+  exact h rest (by rw [e1, e2])
+
+theorem replaceHttps_http (R : List Rune) :
+    replaceHttps (104 :: 116 :: 116 :: 112 :: 58 :: 47 :: 47 :: R) =
+      104 :: 116 :: 116 :: 112 :: 58 :: 47 :: 47 :: replaceHttps R := by
+  rw [replaceHttps_nomatch _ _ (by intro rest; simp)]
+  rw [replaceHttps_ne _ _ (by decide), replaceHttps_ne _ _ (by decide), replaceHttps_ne _ _ (by decide),
+    replaceHttps_ne _ _ (by decide), replaceHttps_ne _ _ (by decide), replaceHttps_ne _ _ (by decide)]
+
+theorem replaceHttps_idem' (w : List Rune) : replaceHttps (replaceHttps w) = replaceHttps w := by
+  fun_induction replaceHttps w with
+  | case1 rest ih => rw [replaceHttps_http, ih]
+  | case2 c rest hno ih =>
+    rw [replaceHttps_nomatch, ih]
+    intro Y e
+    simp only [List.cons.injEq] at e
+    obtain ⟨hc, e⟩ := e
+    obtain ⟨r1, h1, e⟩ := replaceHttps_cons_inv _ _ _ (by decide) e
+    obtain ⟨r2, h2, e⟩ := replaceHttps_cons_inv _ _ _ (by decide) e.symm
+    obtain ⟨r3, h3, e⟩ := replaceHttps_cons_inv _ _ _ (by decide) e.symm
+    obtain ⟨r4, h4, e⟩ := replaceHttps_cons_inv _ _ _ (by decide) e.symm
+    obtain ⟨r5, h5, e⟩ := replaceHttps_cons_inv _ _ _ (by decide) e.symm
+    obtain ⟨r6, h6, e⟩ := replaceHttps_cons_inv _ _ _ (by decide) e.symm
+    obtain ⟨r7, h7, e⟩ := replaceHttps_cons_inv _ _ _ (by decide) e.symm
+    subst hc h1 h2 h3 h4 h5 h6 h7
+    exact hno r7 rfl rfl
+  | case3 => rfl
+
+open LC.V2Env in
+theorem https_http' (r : List Rune) :
+    replaceHttps (lit "https://" ++ r) = replaceHttps (lit "http://" ++ r) := by
+  have e1 : lit "https://" = [104, 116, 116, 112, 115, 58, 47, 47] := by decide
+  have e2 : lit "http://" = [104, 116, 116, 112, 58, 47, 47] := by decide
+  rw [e1, e2]
+  simp only [List.cons_append, List.nil_append]
+  rw [replaceHttps_match, replaceHttps_http]
+
+/-! ### spelling variants -/
+
+theorem filter_of_all {α : Type} (p : α → Bool) (l : List α) (h : l.all p = true) : l.filter p = l := by
+  rw [List.filter_eq_self]
+  simpa using h
+
+theorem header_letter_last (E : Env) (hE : E.isLetter 46 = false ∧ E.isLetter 58 = false ∧ E.isLetter 41 = false)
+    (w : Word) (hw : w.all E.isLetter = true) : header E w = false := by
+  unfold header
+  cases hl : w.getLast? with
+  | none => rfl
+  | some e =>
+    have hm : e ∈ w := List.mem_of_getLast? hl
+    have he : E.isLetter e = true := (List.all_eq_true.mp hw) e hm
+    have : ¬ (e = 46 ∨ e = 58 ∨ e = 41) := by
+      rintro (h | h | h) <;> subst h <;> simp_all
+    simp only [this, if_false]
+
+theorem cleanup_letters (E : Env) (hE : E.isLetter 46 = false ∧ E.isLetter 58 = false ∧ E.isLetter 41 = false)
+    (pos : Nat) (w : Word) (hne : w ≠ []) (hw : w.all E.isLetter = true) :
+    cleanupToken E pos w true = (E.interchangeable w).getD w := by
+  unfold cleanupToken
+  have hh := header_letter_last E hE w hw
+  have hr : E.isLetter ((List.head? w).getD runeError) = true := by
+    cases w with
+    | nil => exact absurd rfl hne
+    | cons a t => exact (List.all_eq_true.mp hw) a (by simp)
+  simp [hh, hr, filter_of_all E.isLetter w hw]
+
+/-- ADJUSTED (hypothesis `hE` added) -/
+theorem interchangeable_same_token' (E : Env)
+    (hE : E.isLetter 46 = false ∧ E.isLetter 58 = false ∧ E.isLetter 41 = false)
+    (pos : Nat) (a b : Word)
+    (ha : a ≠ [] ∧ a.all E.isLetter = true) (hb : b ≠ [] ∧ b.all E.isLetter = true)
+    (hab : E.interchangeable a = some b) (hbb : E.interchangeable b = none) :
+    cleanupToken E pos a true = cleanupToken E pos b true := by
+  rw [cleanup_letters E hE pos a ha.1 ha.2, cleanup_letters E hE pos b hb.1 hb.2, hab, hbb]
+  simp
+
+open LC.V2Env in
+theorem goEnv_letters (u : Word → Word) :
+    (goEnv u).isLetter 46 = false ∧ (goEnv u).isLetter 58 = false ∧ (goEnv u).isLetter 41 = false := by
+  have h1 := isLetter_false 46 (by omega)
+  have h2 := isLetter_false 58 (by omega)
+  have h3 := isLetter_false 41 (by omega)
+  simp only [goEnv]
+  exact ⟨h1, h2, h3⟩
+
+/-! ### notice lines -/
+
+/-- within a line nothing is deferred and neither the line number nor the document moves -/
+theorem step_inline (E : Env) (n : Bool) (s : State) (r : Rune) (hr : r ≠ nl)
+    (hd : s.deferredEOL = false) (hw : s.deferredWord = false) :
+    (step E n s r).deferredEOL = false ∧ (step E n s r).deferredWord = false ∧
+      (step E n s r).line = s.line ∧ (step E n s r).doc = s.doc := by
+  rw [step_eq]
+  simp only [hr, if_false]
+  by_cases h2 : s.obuf = []
+  · simp only [h2, if_true]
+    unfold startOrSkip
+    by_cases h4 : E.starter r = true <;> simp [h4, hd, hw]
+  · simp only [h2, if_false]
+    by_cases h3 : E.isSpace r = true
+    · simp only [h3, if_true, hd]
+      unfold startOrSkip spaceFlush
+      simp only [hw]
+      by_cases h4 : E.starter r = true <;> simp [h4, hd]
+    · simp only [h3]
+      unfold contStep
+      simp [hd, hw]
+
+theorem scanFrom_inline (E : Env) (n : Bool) (rs : List Rune) (s : State) (hr : nl ∉ rs)
+    (hd : s.deferredEOL = false) (hw : s.deferredWord = false) :
+    (scanFrom E n s rs).deferredEOL = false ∧ (scanFrom E n s rs).deferredWord = false ∧
+      (scanFrom E n s rs).line = s.line ∧ (scanFrom E n s rs).doc = s.doc := by
+  induction rs generalizing s with
+  | nil => exact ⟨hd, hw, rfl, rfl⟩
+  | cons a t ih =>
+    have ha : a ≠ nl := fun e => hr (by simp [e])
+    have ht : nl ∉ t := fun e => hr (by simp [e])
+    obtain ⟨h1, h2, h3, h4⟩ := step_inline E n s a ha hd hw
+    have := ih (step E n s a) ht h1 h2
+    unfold scanFrom at this ⊢
+    simp only [List.foldl_cons]
+    rw [h3, h4] at this
+    exact this
+
+theorem scanFrom_append (E : Env) (n : Bool) (s : State) (xs ys : List Rune) :
+    scanFrom E n s (xs ++ ys) = scanFrom E n (scanFrom E n s xs) ys := by
+  unfold scanFrom
+  rw [List.foldl_append]
+
+theorem scanFrom_single (E : Env) (n : Bool) (s : State) (r : Rune) :
+    scanFrom E n s [r] = step E n s r := rfl
+
+theorem notice_line' (E : Env) (s : State) (hc : Clean s) (n : List Rune) (hn : nl ∉ n)
+    (_hd : (scanFrom E true s n).deferredEOL = false)
+    (hh : (scanFrom E true s n).obuf.getLast? ≠ some hyphen)
+    (hne : lineBufOf E (scanFrom E true s n) ≠ [])
+    (hi : E.ignorable (joinLine (lineBufOf E (scanFrom E true s n))) = true) :
+    scanFrom E true s (n ++ [nl]) =
+      { obuf := [], linebuf := [], line := s.line + 1, deferredEOL := false, deferredWord := false,
+        doc := { s.doc with copyrights := s.doc.copyrights ++ [s.line] } } := by
+  obtain ⟨_, _, c3, c4⟩ := hc
+  obtain ⟨i1, i2, i3, i4⟩ := scanFrom_inline E true n s hn c3 c4
+  rw [scanFrom_append, scanFrom_single, step_eq]
+  simp only [if_true]
+  generalize scanFrom E true s n = t at *
+  unfold nlStep
+  simp only [hh, and_false, if_false]
+  have hlb : (if t.obuf ≠ [] then t.linebuf ++ [flushWord E t.obuf] else t.linebuf) = lineBufOf E t := by
+    unfold lineBufOf
+    by_cases h : t.obuf = [] <;> simp [h]
+  rw [hlb]
+  unfold appendLine processLine
+  simp only [hne, hi, if_true, if_false, i1, i2, i3, i4]
+  simp [hne]
+
+/-! ### hyphenation -/
+
+/-- ADJUSTED (hypotheses `hhs`, `hhc` added): the hyphen is not a space and continues a word as itself -/
+theorem hyphen_join_word' (E : Env) (_wf : EnvWF E)
+    (hhs : E.isSpace hyphen = false)
+    (hhc : (match E.punct hyphen with | some rep => rep.map E.toLower | none => [E.toLower hyphen]) = [hyphen])
+    (s : State) (x sp : List Rune) (c : Rune)
+    (hx : (scanFrom E true s x).obuf ≠ []) (hxd : (scanFrom E true s x).deferredEOL = false)
+    (hsp : ∀ r ∈ sp, E.isSpace r = true ∧ r ≠ nl) (hc : E.isSpace c = false) (hcn : c ≠ nl) :
+    (scanFrom E true s (x ++ [hyphen, nl] ++ sp ++ [c])).obuf = (scanFrom E true s (x ++ [c])).obuf := by
+  have e : x ++ [hyphen, nl] ++ sp ++ [c] = x ++ ([hyphen] ++ ([nl] ++ (sp ++ [c]))) := by simp
+  rw [e]
+  simp only [scanFrom_append, scanFrom_single]
+  generalize scanFrom E true s x = t at *
+  -- the hyphen continues the word
+  have h1 : step E true t hyphen = { t with obuf := t.obuf ++ [hyphen] } := by
+    rw [step_eq]
+    have : ¬ hyphen = nl := by decide
+    simp only [this, if_false, hx, hhs]
+    have hhc' : contOf E hyphen = [hyphen] := hhc
+    rw [hhc']
+    unfold contStep
+    simp [hxd]
+  -- the newline strips it and defers the end of line
+  have h2 : step E true { t with obuf := t.obuf ++ [hyphen] } nl = { t with deferredEOL := true } := by
+    rw [step_eq]
+    simp only [if_true]
+    unfold nlStep
+    simp
+  -- the indentation is skipped
+  have h3 : ∀ (sp : List Rune), (∀ r ∈ sp, E.isSpace r = true ∧ r ≠ nl) →
+      scanFrom E true { t with deferredEOL := true } sp = { t with deferredEOL := true } := by
+    intro sp hsp
+    induction sp with
+    | nil => rfl
+    | cons a l ih =>
+      have ha := hsp a (by simp)
+      have : step E true { t with deferredEOL := true } a = { t with deferredEOL := true } := by
+        rw [step_eq]
+        simp only [ha.2, if_false, hx, ha.1, if_true]
+      show scanFrom E true (step E true { t with deferredEOL := true } a) l = _
+      rw [this]
+      exact ih (fun r hr => hsp r (by simp [hr]))
+  rw [h1, h2, h3 sp hsp]
+  rw [step_eq, step_eq]
+  simp only [hcn, if_false, hx, hc]
+  unfold contStep
+  simp [hxd]
+
+open LC.V2Env in
+/-- the Go tables satisfy the hypotheses added to `hyphen_join_word` -/
+theorem goEnv_hyphen (u : Word → Word) :
+    (goEnv u).isSpace hyphen = false ∧
+    (match (goEnv u).punct hyphen with
+      | some rep => rep.map (goEnv u).toLower
+      | none => [(goEnv u).toLower hyphen]) = [hyphen] := by
+  have h1 := isSpace_false 45 (by omega)
+  have h2 := punct_dash 45 (by omega)
+  have h3 := toLower_id 45 (by omega)
+  simp only [goEnv, hyphen]
+  refine ⟨h1, ?_⟩
+  rw [h2]
+  simp only [List.map_cons, List.map_nil, h3]
+
 end LC.V2Tok
